@@ -34,3 +34,24 @@ def run_interrupted(fn, after):
         return True, None
     finally:
         sys.settrace(old)
+
+
+def run_with_stack_budget(fn, extra):
+    """fault F11: fn() runs with the interpreter's recursion limit `extra` frames above the current depth, so the
+    limit is hit at a point that is a pure function of the code, its input and `extra`.
+    returns (True, None) if RecursionError (or an exception that carries it) came out, else (False, fn's result)"""
+    depth = 0
+    fr = sys._getframe()
+    while fr is not None:
+        depth += 1
+        fr = fr.f_back
+    limit0 = sys.getrecursionlimit()
+    sys.setrecursionlimit(depth + max(6, extra))
+    try:
+        value = fn()
+    except RecursionError:
+        sys.setrecursionlimit(limit0)
+        return True, None
+    finally:
+        sys.setrecursionlimit(limit0)
+    return False, value
